@@ -162,6 +162,8 @@ pub struct Sim {
     /// the clock advances by this much on every read (a thread can lose the CPU between two reads)
     pub read_step_ns: u64,
     pub clock_reads: u64,
+    /// simulated time charged for bulk table work (H9)
+    pub bulk_work_ns: u64,
     pub clock_events: Vec<ClockEvent>,
     // knobs
     pub poll_interval: Option<u64>,
@@ -261,6 +263,7 @@ impl Sim {
             frozen_polls_left: 0,
             read_step_ns: 0,
             clock_reads: 0,
+            bulk_work_ns: 0,
             clock_events: Vec::new(),
             poll_interval: None,
             initial_hash_mb: None,
@@ -391,7 +394,18 @@ fn notify_gui_if_waiting() {
 
 // ---- stdout / stderr ---------------------------------------------------------------------------
 
+/// The real engine performs a `write` here and releases the stdout lock afterwards: the OS may run the
+/// other thread between two writes, so every write is a scheduling point of the simulation (only in
+/// the threaded world; the single-threaded world has nobody to switch to).
+fn write_is_a_scheduling_point() {
+    let threaded = with_sim(|s| s.stdin.is_some() && !s.process_exited).unwrap_or(false);
+    if threaded {
+        shuttle::thread::yield_now();
+    }
+}
+
 pub fn out_partial(text: String) {
+    write_is_a_scheduling_point();
     let installed = with_sim(|s| s.partial_line.push_str(&text)).is_some();
     if !installed {
         use std::io::Write;
@@ -400,6 +414,7 @@ pub fn out_partial(text: String) {
 }
 
 pub fn out_line(stream: u8, text: String) {
+    write_is_a_scheduling_point();
     let mut notify = false;
     let installed = with_sim(|s| {
         let mut line = std::mem::take(&mut s.partial_line);
@@ -604,6 +619,21 @@ pub fn elapsed(epoch: &Epoch) -> Option<Duration> {
         s.searches.get(epoch.id).map(|r| Duration::from_nanos(s.now_ns - r.epoch_ns))
     })
     .flatten()
+}
+
+// ---- H9: bulk work (clearing / allocating the table) takes time ----------------------------------
+
+/// Simulated cost of touching one table entry (16 bytes): ≈ 0.4 ns per byte on this class of machine.
+pub const NS_PER_TABLE_ENTRY: u64 = 6;
+
+pub fn bulk_work(entries: u64) {
+    with_sim(|s| {
+        if s.frozen_polls_left == 0 {
+            let ns = entries.saturating_mul(NS_PER_TABLE_ENTRY);
+            s.now_ns += ns;
+            s.bulk_work_ns += ns;
+        }
+    });
 }
 
 // ---- H6: node tick, poll interval ----------------------------------------------------------------
